@@ -111,6 +111,7 @@ func run_simulation(args []string) {
 
 		// === RUN GENERATION ===
 		genSimulationTime, nodesInGeneration := runGeneration(i, models, modelNames) // synchronous
+		verifEvent("gendone", "gen", i)
 		nodesCompleted += nodesInGeneration
 		totalTimeSimulation += genSimulationTime
 		// === /RUN GENERATION ===
@@ -118,27 +119,35 @@ func run_simulation(args []string) {
 		// === WRITE GENERATION OUTPUTS ===
 		// asynchronous
 		if outputFn != "" {
+			verifEvent("spawn", "gen", i)
 			go func(g int) {
+				verifEvent("wstart", "g", g)
 				if g > 0 {
 					prevG := -1
 					for {
 						prevG = <-writingDone
+						verifEvent("wrecv", "g", g, "prev", prevG)
 
 						for _, modelName := range modelNames {
 							modelRef := models[modelName]
 							modelRef.PurgeGeneration(prevG)
 						}
 
+						verifEvent("wpurged", "g", g, "prev", prevG)
 						if prevG == (g - 1) {
 							break
 						}
 						verbosePrintf("Waiting for generation %d, got generation %d, sleeping\n", g, prevG)
+						verifEvent("wpassback", "g", g, "prev", prevG)
 						writingDone <- prevG
 						time.Sleep(time.Duration(1000 * 1000 * 500)) // Half a second
 					}
 				}
 
+				verifEvent("wwritebegin", "g", g)
 				writeGeneration(g, models, modelNames)
+				verifEvent("wwriteend", "g", g)
+				verifEvent("wsend", "g", g)
 				writingDone <- g
 			}(i)
 		}
@@ -192,8 +201,10 @@ func run_simulation(args []string) {
 			destData := destModel.Inputs.Slice([]int{int(destIdx), int(destVar), 0}, []int{1, 1, nTimesteps}, []int{1, 1, 1})
 
 			data.AddToFloat64Array(destData, srcData)
+			verifEvent("link", "k", nextLink)
 			nextLink++
 		}
+		verifEvent("linksdone", "gen", i)
 		genLinkEnd := time.Now()
 		genLinkElapsed := genLinkEnd.Sub(genLinkStart).Seconds()
 		totalTimeLinks += genLinkElapsed
@@ -211,16 +222,19 @@ func run_simulation(args []string) {
 	if outputFn != "" {
 		for {
 			genFinished := <-writingDone
+			verifEvent("mainrecv", "v", genFinished)
 			if genFinished == (genCount - 1) {
 				verbosePrintf("Generation %d finished writing\n", genFinished)
 				break
 			}
 			verbosePrintf("Waiting for final generation (%d), got generation %d, sleeping\n", genCount-1, genFinished)
+			verifEvent("mainpassback", "v", genFinished)
 			writingDone <- genFinished
 			time.Sleep(time.Duration(500 * 1000 * 1000))
 		}
 	}
 
+	verifEvent("mainexit")
 	simEnd := time.Now()
 	finalWriteElapsed := simEnd.Sub(generationsEnd)
 	totalTimeFinalWrite = finalWriteElapsed.Seconds()
